@@ -34,12 +34,13 @@ def check_program(col, pp, cfg, prog, queries=None, draw=None):
     pair = programs.baked_pair(col, pp, prog)
     if pair is None:
         return
-    world, eager, rr = pair
+    full = prog
+    world, eager, rr, prog = pair        # for a chained program: the second recipe and its part of the ledger
     ref = world.ref
     recipe = rr.recipe
     steps = programs.real_steps(prog)
     stages = programs.stages_of(prog)
-    keys = sorted(eager.env.keys())
+    keys = sorted(k for k in eager.env.keys() if k in rr.decl)     # objects this recipe knows (chains: the second one)
     if not keys or not steps:
         col.exclude('empty program')
         return
@@ -78,7 +79,7 @@ def check_program(col, pp, cfg, prog, queries=None, draw=None):
         dest = q['dest']
         col.label(f"query:{'plates' if dest == 'plates' else 'unknown-dest' if dest == ['#unknown'] else 'subset'}")
         col.label(f"timeframe:{'all' if q['timeframe'] == 'all' else 'stage'}")
-        case = {'program': True, 'subs': prog['subs'], 'objects': prog['objects'], 'steps': prog['steps'], 'queries': [q]}
+        case = {'program': True, 'subs': full['subs'], 'objects': full['objects'], 'steps': full['steps'], 'queries': [q]}
         if dest == ['#unknown']:
             try:
                 got = recipe.get_substance_used(world.real[q['sub']], q['timeframe'], q['unit'], [pp.Container('never declared')])
@@ -168,7 +169,7 @@ def check_program(col, pp, cfg, prog, queries=None, draw=None):
         p = cfg.precision(unit)
         if abs(sum(parts) - total) > (len(parts) + 1) * 0.5 * 10 ** -p * 1.001 + 1e-9 * abs(total):
             col.report('stages-do-not-add-up', {'total': total, 'parts': parts, 'unit': unit},
-                       {'program': True, 'subs': prog['subs'], 'objects': prog['objects'], 'steps': prog['steps'], 'queries': []})
+                       {'program': True, 'subs': full['subs'], 'objects': full['objects'], 'steps': full['steps'], 'queries': []})
         col.nontrivial_key(f"additivity|{len(parts)}|{kinds}")
 
 
@@ -176,7 +177,7 @@ def run(col):
     pp = core.env.bootstrap()
     cfg = RefCfg()
     prof = {'max_steps': 10 if col.tier == 'quick' else 20, 'max_dim': 3, 'keep_failing': False,
-            'weights': {'remove': 4, 'transfer': 8}, 'dilute_new_name': False}
+            'weights': {'remove': 4, 'transfer': 8}, 'dilute_new_name': False, 'chain': True}
 
     def t():
         @given(st.data())
